@@ -14,4 +14,4 @@ Separate Extraction
   read_trun
   fetch_interval fetch_meta_interval copy_media_data create_sample_flags
   C09Spec.consistent data_ok one_offset_box expansion
-  seg_track seg_track_lazy mux_segments read_back read_all itrack_of.
+  seg_track seg_track_lazy mux_segments read_back read_all itrack_of to_full write_segment.
